@@ -428,18 +428,15 @@ func c37Run(t *testing.T, limit, maxlen, maxq int, kind string, r *rand.Rand, fi
 				cb(l.OK)
 			}
 		case "srvsub":
+			c := h.client
+			c.mu.RLock()
+			fullBefore := limit > 0 && len(c.channels) >= limit && c.status != statusClosed
+			c.mu.RUnlock()
 			_ = client.Subscribe(c37Channel(l.Name, 3, false))
-			if limit > 0 && !wasClosed {
-				c := h.client
-				c.mu.RLock()
-				full := len(c.channels) >= limit && c.status != statusClosed
-				_, has := c.channels[c37Channel(l.Name, 3, false)]
-				c.mu.RUnlock()
-				if full && !has {
-					select { // Client.Subscribe closes in a goroutine when the limit is reached
-					case <-h.tr.closeCh:
-					case <-time.After(2 * time.Second):
-					}
+			if fullBefore && !wasClosed {
+				select { // Client.Subscribe closes in a goroutine when the limit is reached
+				case <-h.tr.closeCh:
+				case <-time.After(2 * time.Second):
 				}
 			}
 		case "unsub":
